@@ -67,10 +67,11 @@ def sigma(lay, i):
         # a zone / origin directive with a label in front of it on the same line is still that directive
         ('sameline', ('label', f'L{i}'), ('memzone', na)), ('sameline', ('label', f'M{i}'), ('org', 1, nb)),
         ('sameline', ('label', f'N{i}'), ('org', 6, None)),
+        ('m2', m & 0x7F, 1),          # a macro of two 12-bit steps: 4 bytes, each step padded on its own
     ]
 
 
-NSYM = 18
+NSYM = 19
 
 
 def included(i, lay=None):
@@ -81,7 +82,7 @@ def included(i, lay=None):
 def meta(tier):
     q = tier == 'quick'
     return {
-        'rule': 'every program over the 18-symbol zone alphabet (incl. zone / origin directives with a label in front of them) up to the depth bound under 9 zone layouts (predefined / created in '
+        'rule': 'every program over the 19-symbol zone alphabet (incl. zone / origin directives with a label in front of them, a macro of two sub-byte steps) up to the depth bound under 9 zone layouts (predefined / created in '
                 'source, default / redefined GLOBAL, nested / overlapping / adjacent zones, zones sharing exactly one address, a one-address zone, zone names differing only in letter case, a zone called global, zones at the top of a 5-bit address '
                 'space), plus every ill-formed declaration from the grid; expected: image of the reference layout, or rejection '
                 'iff a byte would lie outside its selected zone or GLOBAL (or two lines collide); non-trivial = program that '
